@@ -1,6 +1,7 @@
 package gen
 
 import (
+	"encoding/pem"
 	"pgregory.net/rapid"
 
 	"verifharness/ref/esl"
@@ -159,3 +160,23 @@ func mimicHeaders(l esl.List) {
 }
 
 func le32(b []byte, v uint32) { b[0], b[1], b[2], b[3] = byte(v), byte(v>>8), byte(v>>16), byte(v>>24) }
+
+// WithPEMText turns the certificates of one X.509 list in ten into the text of PEM files: other tools enroll a PEM
+// file as it is, the entry data then is that text, and that is what a decoder has to hand out and re-encode. Not for
+// checks that go on to use the append / remove API on the decoded database: that API converts PEM arguments to DER,
+// so such an entry cannot be named through it.
+func WithPEMText(t *rapid.T, lists []esl.List) []esl.List {
+	for k := range lists {
+		l := &lists[k]
+		if l.Type != esl.X509 || len(l.Entries) == 0 || rapid.IntRange(0, 9).Draw(t, "pemtext") != 0 {
+			continue
+		}
+		var entries []esl.Entry
+		for i := range l.Entries {
+			txt := pem.EncodeToMemory(&pem.Block{Type: "CERTIFICATE", Bytes: FillBytes(t, 60)})
+			entries = append(entries, esl.Entry{Owner: l.Entries[i].Owner, Data: txt})
+		}
+		l.Entries, l.Size = entries, uint32(16+len(entries[0].Data))
+	}
+	return lists
+}
